@@ -182,9 +182,8 @@ def attribute(stream, cwd_rel=''):
         # record about X it prints "do X" (once per X), shows X's log recursively and returns to T's log; before
         # the next text line of T it prints "resumed T" if anything was printed in between; "done" records are
         # copied from the log of whoever built X (possibly much later than X's content) and do not switch the
-        # writer.  The only text that follows a nested target without a "resumed" marker is T's unterminated
-        # last line, flushed when T's log ends - by then all of T's children are done, so it belongs to the
-        # innermost target that is still open.
+        # writer.  (Before fix "say whose output an unterminated last line is" T's unterminated last line was
+        # flushed without that marker; now every switch of the writer is marked, so only do/resumed count.)
         if kind == 'do':
             open_.append(text)
             cur = text
@@ -196,8 +195,6 @@ def attribute(stream, cwd_rel=''):
             name = sp[1] if len(sp) == 2 else ''
             if name in open_:
                 open_.remove(name)
-            if name == cur:
-                cur = open_[-1] if open_ else None
         # locked / waiting / unlocked / unchanged / check...: no change of writer
     return per, recs, problems
 
